@@ -12,8 +12,10 @@ history `h` of `seek`/`read`/`get_position` calls with arbitrary arguments, succ
 -/
 import Sqfs.Proofs.MetaReader
 import Sqfs.Proofs.DataReaderCache
+import Sqfs.Proofs.C10Prog
+import Sqfs.Proofs.C10Data
 namespace Sqfs.C10
-open Sqfs.MetaReader Sqfs.Consts
+open Sqfs.MetaReader Sqfs.Consts Sqfs.C10P
 
 /-- a freshly created reader is coherent -/
 theorem coherent_init (f : File) (unc : Codec) (start limit : Nat) (hl : limit ≤ NONE) :
@@ -93,23 +95,17 @@ theorem failed_miss_unpositions (f : File) (unc : Codec) (m : MR) (b o : Nat)
 theorem seek_then_position (f : File) (unc : Codec) (hc : CodecOK unc) (m : MR) (b o : Nat)
     (h : (seek true f unc m b o).1 = 0) : getPos (seek true f unc m b o).2 = (b, o) := seek_getPos hc h
 
-/-- **xattr reader, out-of-line values** (`read_value_hdr` / `sqfs_xattr_reader_read_value`): remember
-`get_position`, seek to the referenced value, read it, seek back.  If that succeeds, the key/value reader reports
-the remembered position again and *every* continuation (the following keys and values) reads exactly what it
-would have read had the detour not happened — also when the remembered position was the end of a block, where
-`get_position` names the start of the next block instead. -/
-theorem ool_position_restored (f : File) (unc : Codec) (hc : CodecOK unc) (m : MR) (hm : Coherent f unc m)
-    (b o n : Nat) (hok : (oolDetour true f unc m b o n).1 = 0) :
-    getPos (oolDetour true f unc m b o n).2.2 = getPos m ∧
-    ∀ ns, answerReads true f unc (oolDetour true f unc m b o n).2.2 ns = answerReads true f unc m ns :=
-  oolDetour_restores hc hm b o n hok
+/-! ### Part 2: the data reader (`lib/sqfs/src/data_reader.c`)
 
-/-! ### Part 2: the data reader's block cache and fragment cache (`lib/sqfs/src/data_reader.c`)
-
-`kw = false` is the code as it is (data-block cache keyed by location only), `kw = true` the code with
-`fixes/C10-data-reader-cache-key.patch`.  `sw` is the image's "location ↦ size word" function; `ConsIno`
-says an inode's block list agrees with it (true for every pair of inodes the library writes: blocks are
-shared only as whole identical `(location, size word)` runs) and is *no condition at all* when `kw = true`. -/
+`kw = true` is the code as it is (data-block cache keyed by location *and* size word, 36fa767); `kw = false` the code
+before that commit, for which `sw`/`ConsIno` describe the images on which it was sound (`ConsIno` is *no condition
+at all* when `kw = true`).  `sfix` selects the stream code: `false` as it is in /repo (D33, see
+`Sqfs/Witness/C10.lean`), `true` with `fixes/C10-stream-frag-fail.patch`; the theorems below hold for both, because
+D33 lives in the stream object, not in the reader's caches.  A history (`DataReader.OpX`, run by `runX`; the read-only
+`Op`/`run` that C19 uses embed into it: `DataReader.runX_embed`) is any sequence of
+`sqfs_data_reader_read`, `sqfs_data_reader_get_fragment`, stream `get_buffered_data` calls (on streams in any
+state) and `sqfs_data_reader_load_fragment_table` reloads.  `sqfs_data_reader_get_block` does not use the reader
+object beyond `block_size`: `DataReader.getBlockApi` has no reader argument. -/
 
 /-- a freshly created data reader (after `load_fragment_table`) is coherent -/
 theorem data_coherent_init (kw : Bool) (f : File) (unc : Codec) (sw : Nat → Nat) (bs : Nat) (tbl : List (Nat × Nat)) :
@@ -123,42 +119,274 @@ theorem data_coherent_read (kw : Bool) (f : File) (unc : Codec) (sw : Nat → Na
     (DataReader.read kw f unc d ino o n).1 = DataReader.readSpec f unc d.blockSize d.tbl ino o n :=
   ⟨(DataReader.read_spec hc hd ino hi o n).2.1, (DataReader.read_spec hc hd ino hi o n).1⟩
 
-/-- **Main theorem (data reader).**  After any history of reads whose inodes agree with the image's
-location ↦ size-word function, a read is answered by the cacheless reference — a function of the image, the
-fragment table and the query alone. -/
-theorem data_read_eq_cacheless (kw : Bool) (f : File) (unc : Codec) (sw : Nat → Nat) (hc : CodecOK unc)
-    (bs : Nat) (tbl : List (Nat × Nat)) (h : List DataReader.Op)
-    (hh : ∀ op ∈ h, match op with | .read ino _ _ => DataReader.ConsIno kw sw ino)
-    (ino : DataReader.Inode) (hi : DataReader.ConsIno kw sw ino) (o n : Nat) :
-    (DataReader.read kw f unc (DataReader.run kw f unc (DataReader.fresh bs tbl) h) ino o n).1 =
-      DataReader.readSpec f unc bs tbl ino o n := by
-  obtain ⟨hd, hb, ht⟩ := DataReader.run_dcoh hc h _ (DataReader.fresh_dcoh kw f unc sw bs tbl) hh
-  have := (DataReader.read_spec hc hd ino hi o n).1
-  rw [hb, ht] at this
-  exact this
+/-- every data reader reachable by a history is coherent -/
+theorem data_coherent_run (kw sfix : Bool) (f : File) (unc : Codec) (sw : Nat → Nat) (hc : CodecOK unc) (bs : Nat)
+    (tbl : List (Nat × Nat)) (h : List DataReader.OpX) (hh : DataReader.OpsCons kw sw h) :
+    DataReader.DCoh kw f unc sw (DataReader.runX kw sfix f unc (DataReader.fresh bs tbl) h) :=
+  (DataReader.run_dcoh hc sfix h _ (DataReader.fresh_dcoh kw f unc sw bs tbl) hh).1
 
-/-- hence: same answer as a fresh data reader (current code, images whose inodes are consistent) -/
-theorem data_history_independent_written (f : File) (unc : Codec) (sw : Nat → Nat) (hc : CodecOK unc)
-    (bs : Nat) (tbl : List (Nat × Nat)) (h : List DataReader.Op)
-    (hh : ∀ op ∈ h, match op with | .read ino _ _ => DataReader.ConsIno false sw ino)
-    (ino : DataReader.Inode) (hi : DataReader.ConsIno false sw ino) (o n : Nat) :
-    (DataReader.read false f unc (DataReader.run false f unc (DataReader.fresh bs tbl) h) ino o n).1 =
-    (DataReader.read false f unc (DataReader.fresh bs tbl) ino o n).1 := by
-  rw [data_read_eq_cacheless false f unc sw hc bs tbl h hh ino hi o n]
-  have := data_read_eq_cacheless false f unc sw hc bs tbl [] (fun _ h => nomatch h) ino hi o n
-  exact this.symm
+/-- **Main theorem (data reader).**  After any history, each entry point that goes through a cache answers
+what its cacheless reference computes from the image, the fragment table currently loaded and the query alone:
+positional read, `get_fragment`, and a stream's `get_buffered_data` (answer and new stream state). -/
+theorem data_api_eq_cacheless (kw sfix : Bool) (f : File) (unc : Codec) (sw : Nat → Nat) (hc : CodecOK unc)
+    (bs : Nat) (tbl : List (Nat × Nat)) (h : List DataReader.OpX) (hh : DataReader.OpsCons kw sw h) :
+    let D := DataReader.runX kw sfix f unc (DataReader.fresh bs tbl) h
+    D.blockSize = bs ∧
+    (∀ ino o n, DataReader.ConsIno kw sw ino → (DataReader.read kw f unc D ino o n).1 = DataReader.readSpec f unc bs D.tbl ino o n) ∧
+    (∀ ino, (DataReader.getFragment f unc D ino).1 = DataReader.getFragmentSpec f unc bs D.tbl ino) ∧
+    (∀ s, ((DataReader.streamGet sfix f unc D s).1, (DataReader.streamGet sfix f unc D s).2.1) =
+            DataReader.streamGetSpec sfix f unc bs D.tbl s) := by
+  obtain ⟨hd, hb⟩ := DataReader.run_dcoh hc sfix h _ (DataReader.fresh_dcoh kw f unc sw bs tbl) hh
+  have hb' : (DataReader.runX kw sfix f unc (DataReader.fresh bs tbl) h).blockSize = bs := hb
+  refine ⟨hb', fun ino o n hi => ?_, fun ino => ?_, fun s => ?_⟩
+  · have := (DataReader.read_spec hc hd ino hi o n).1
+    rw [hb'] at this; exact this
+  · have := (DataReader.getFragment_spec hc hd ino).1
+    rw [hb'] at this; exact this
+  · have := (DataReader.streamGet_spec hc sfix hd s).1
+    rw [hb'] at this; exact this
 
-/-- repaired code (cache keyed by location *and* size word): history independence on **every** image,
-damaged ones included, for arbitrary inodes -/
-theorem data_history_independent_repaired (f : File) (unc : Codec) (hc : CodecOK unc)
-    (bs : Nat) (tbl : List (Nat × Nat)) (h : List DataReader.Op) (ino : DataReader.Inode) (o n : Nat) :
-    (DataReader.read true f unc (DataReader.run true f unc (DataReader.fresh bs tbl) h) ino o n).1 =
-    (DataReader.read true f unc (DataReader.fresh bs tbl) ino o n).1 := by
+/-- the code as it is (cache keyed by location and size word): **history independence on every image**, damaged
+ones included, for arbitrary inodes and streams: a used reader answers like a reader created now (which loads the
+fragment table the used reader has loaded last) -/
+theorem data_history_independent (sfix : Bool) (f : File) (unc : Codec) (hc : CodecOK unc)
+    (bs : Nat) (tbl : List (Nat × Nat)) (h : List DataReader.OpX) :
+    let D := DataReader.runX true sfix f unc (DataReader.fresh bs tbl) h
+    let F := DataReader.fresh bs D.tbl
+    (∀ ino o n, (DataReader.read true f unc D ino o n).1 = (DataReader.read true f unc F ino o n).1) ∧
+    (∀ ino, (DataReader.getFragment f unc D ino).1 = (DataReader.getFragment f unc F ino).1) ∧
+    (∀ s, ((DataReader.streamGet sfix f unc D s).1, (DataReader.streamGet sfix f unc D s).2.1) =
+          ((DataReader.streamGet sfix f unc F s).1, (DataReader.streamGet sfix f unc F s).2.1)) := by
   have all : ∀ i : DataReader.Inode, DataReader.ConsIno true (fun _ => 0) i := fun _ _ _ => Or.inl rfl
-  have hh : ∀ op ∈ h, match op with | .read ino _ _ => DataReader.ConsIno true (fun _ => 0) ino := by
-    intro op _; cases op; exact all _
-  rw [data_read_eq_cacheless true f unc (fun _ => 0) hc bs tbl h hh ino (all _) o n]
-  exact (data_read_eq_cacheless true f unc (fun _ => 0) hc bs tbl [] (fun _ h => nomatch h) ino (all _) o n).symm
+  have hh : DataReader.OpsCons true (fun _ => 0) h := by
+    intro op _; cases op <;> first | exact all _ | trivial
+  obtain ⟨hb, h1, h2, h3⟩ := data_api_eq_cacheless true sfix f unc (fun _ => 0) hc bs tbl h hh
+  intro D F
+  have hF := DataReader.fresh_dcoh true f unc (fun _ => 0) bs D.tbl
+  refine ⟨fun ino o n => ?_, fun ino => ?_, fun s => ?_⟩
+  · rw [h1 ino o n (all _)]; exact ((DataReader.read_spec hc hF ino (all _) o n).1).symm
+  · rw [h2 ino]; exact ((DataReader.getFragment_spec hc hF ino).1).symm
+  · rw [h3 s]; exact ((DataReader.streamGet_spec hc sfix hF s).1).symm
+
+/-- the code before 36fa767 (cache keyed by location only), on images whose inodes are consistent with one
+location ↦ size word function (kept for the record: D21) -/
+theorem data_history_independent_written (f : File) (unc : Codec) (sw : Nat → Nat) (hc : CodecOK unc)
+    (bs : Nat) (tbl : List (Nat × Nat)) (h : List DataReader.OpX) (hh : DataReader.OpsCons false sw h)
+    (ino : DataReader.Inode) (hi : DataReader.ConsIno false sw ino) (o n : Nat) :
+    let D := DataReader.runX false false f unc (DataReader.fresh bs tbl) h
+    (DataReader.read false f unc D ino o n).1 = (DataReader.read false f unc (DataReader.fresh bs D.tbl) ino o n).1 := by
+  obtain ⟨_, h1, _, _⟩ := data_api_eq_cacheless false false f unc sw hc bs tbl h hh
+  intro D
+  rw [h1 ino o n hi]
+  exact ((DataReader.read_spec hc (DataReader.fresh_dcoh false f unc sw bs D.tbl) ino hi o n).1).symm
+
+/-- the stream with `fixes/C10-stream-frag-fail.patch`: a `get_buffered_data` that fails leaves the stream at its
+end — whatever is asked afterwards, on whatever reader state, the answer is "end of file" (D33 closed) -/
+theorem stream_fail_stops (f : File) (unc : Codec) (d d' : DataReader.DR) (s : DataReader.Stream) (e : Status)
+    (h : (DataReader.streamGet true f unc d s).1 = .err e) :
+    (DataReader.streamGet true f unc d' (DataReader.streamGet true f unc d s).2.1).1 = .eof := by
+  have key : ∀ s0 : DataReader.Stream, (DataReader.streamGet true f unc d' s0.failed).1 = .eof := by
+    intro s0; unfold DataReader.streamGet DataReader.Stream.failed; simp
+  unfold DataReader.streamGet at h
+  rw [show DataReader.streamGet true f unc d s = _ from by unfold DataReader.streamGet; rfl]
+  by_cases h1 : s.bufOff < s.bufUsed
+  · simp only [h1, if_true] at h; cases h
+  · simp only [h1, if_false] at h ⊢
+    by_cases h2 : s.filesz = 0
+    · simp only [h2, if_true] at h; cases h
+    · simp only [h2, if_false] at h ⊢
+      generalize (if s.filesz < d.blockSize then s.filesz else d.blockSize) = used at h ⊢
+      generalize ({ s with bufOff := 0, bufUsed := used } : DataReader.Stream) = s1 at h ⊢
+      generalize DataReader.streamFill f unc d s1 used = r at h ⊢
+      obtain ⟨fl, dd⟩ := r
+      cases fl with
+      | ok mem s' => cases h
+      | fail e' => exact key _
+      | early e' => exact key _
+
+/-! #### the alternative APIs for reading file data agree on every file the library itself wrote
+
+`DataReader.Written f unc bs tbl ino datas tail` (`Sqfs/Spec/DataReaderCache.lean`) describes an inode and its data
+as the block processor and the fragment table writer leave them: full blocks (sparse, raw, or compressed and then
+smaller than unpacked), at most one short last block or else a tail in the fragment block the inode names.  The
+statements are about the cacheless references; by `data_api_eq_cacheless` the cached reader computes those after
+any history. -/
+
+/-- positional read of the whole file = `get_block` for every index followed by `get_fragment`: both succeed
+and deliver the same bytes -/
+theorem read_eq_blocks_plus_fragment (f : File) (unc : Codec) (bs : Nat) (tbl : List (Nat × Nat)) (ino : DataReader.Inode)
+    (datas : List Bytes) (tail : Bytes) (h : DataReader.Written f unc bs tbl ino datas tail) :
+    (DataReader.readSpec f unc bs tbl ino 0 ino.fileSize).1 = 0 ∧
+    DataReader.viaBlocks f unc bs tbl ino = .ok (DataReader.readSpec f unc bs tbl ino 0 ino.fileSize).2 := by
+  rw [DataReader.readSpec_written h, DataReader.viaBlocks_written h]
+  exact ⟨rfl, rfl⟩
+
+/-- the stream (`get_buffered_data`/`advance_buffer` until the end) delivers what the positional read delivers -/
+theorem stream_eq_read (f : File) (unc : Codec) (bs : Nat) (tbl : List (Nat × Nat)) (ino : DataReader.Inode)
+    (datas : List Bytes) (tail : Bytes) (h : DataReader.Written f unc bs tbl ino datas tail) :
+    DataReader.viaStream f unc bs tbl ino = .ok (DataReader.readSpec f unc bs tbl ino 0 ino.fileSize).2 := by
+  rw [DataReader.readSpec_written h]
+  have := DataReader.streamAllGo_written h.bsPos tbl ino.fragIdx ino.fragOff tail h.tailShort h.frag
+    ino.blocks ino.blocksStart ino.fileSize datas (DataReader.streamOpen bs ino) [] (ino.blocks.length + 2)
+    h.blocks rfl rfl rfl rfl rfl rfl h.tailLen (Nat.le_refl _)
+  unfold DataReader.viaStream
+  rw [this]
+  simp
+
+/-- and all three are the file: the blocks' bytes followed by the tail -/
+theorem written_file_content (f : File) (unc : Codec) (bs : Nat) (tbl : List (Nat × Nat)) (ino : DataReader.Inode)
+    (datas : List Bytes) (tail : Bytes) (h : DataReader.Written f unc bs tbl ino datas tail) :
+    DataReader.readSpec f unc bs tbl ino 0 ino.fileSize = (0, datas.flatten ++ tail) := DataReader.readSpec_written h
+
+/-! ### Part 3: the decoders on top of the metadata reader
+
+`Sqfs/Model/C10Dec.lean` models `sqfs_meta_reader_read_inode`, `sqfs_meta_reader_readdir`, the dir reader's
+`get_inode`/`open_dir`/`read`/`resolve_path`, the xattr reader's `get_desc`/`seek_kv`/`read_key`/`read_value`/
+`read`/`read_all` and `sqfs_read_table` as *programs* (`Prog`): trees of `seek`/`read`/`get_position` calls on the
+reader objects the API object owns, returning at the first failing call.  `WF noneYet p` ("seek first") says that
+`p` reads a reader only after positioning it itself.  `usedFam f unc w h` is any family of reader objects reachable
+from freshly created ones (reader `k` created with window `w k`) by arbitrary histories `h k` of raw calls —
+which includes everything earlier programs did to them, successful or not, because every program only ever
+issues such calls; `freshFam w` are the freshly created ones. -/
+
+/-- **Lifting theorem.**  Every seek-first program — whatever it computes from the bytes it reads — returns on
+used reader objects what it returns on freshly created ones, and leaves every reader object coherent. -/
+theorem prog_history_independent {α : Type} (f : File) (unc : Codec) (hc : CodecOK unc) (w : Nat → Nat × Nat)
+    (hw : ∀ k, (w k).2 ≤ NONE) (h : Nat → List Op) (p : Prog α) (hp : WF noneYet p) :
+    (exec true f unc p (usedFam f unc w h)).1 = (exec true f unc p (freshFam w)).1 ∧
+    ∀ k, Coherent f unc ((exec true f unc p (usedFam f unc w h)).2 k) := by
+  obtain ⟨e1, e2⟩ := exec_obs hc p noneYet _ _ (rel_used_fresh hc w hw h) hp
+  exact ⟨e1, fun k => (e2 k).1⟩
+
+/-- **Clients.**  A chain of seek-first calls — each chosen from the answers to the earlier ones — has the same
+outcome on used readers with arbitrary foreign histories `hs` happening on the same objects *between* its calls
+as on fresh readers without any interleaving. -/
+theorem session_history_independent {α β : Type} (f : File) (unc : Codec) (hc : CodecOK unc) (w : Nat → Nat × Nat)
+    (hw : ∀ k, (w k).2 ≤ NONE) (h : Nat → List Op) (s : Session α β) (hs : s.WF) (between : List (Nat → List Op)) :
+    (s.runI true f unc (usedFam f unc w h) between).1 = (s.runI true f unc (freshFam w) []).1 :=
+  session_obs hc s _ _ _ _ (rel_used_fresh hc w hw h) hs
+
+/-- inode by reference: `sqfs_dir_reader_get_inode` (= `sqfs_meta_reader_read_inode` on `meta_inode`) -/
+theorem inode_by_ref_history_independent (f : File) (unc : Codec) (hc : CodecOK unc) (w : Nat → Nat × Nat)
+    (hw : ∀ k, (w k).2 ≤ NONE) (h : Nat → List Op) (d : DirRd) (ref : Nat) :
+    (exec true f unc (d.getInodeP ref) (usedFam f unc w h)).1 = (exec true f unc (d.getInodeP ref) (freshFam w)).1 :=
+  (prog_history_independent f unc hc w hw h _ (readInodeP_wf _ _ _ _ _)).1
+
+/-- one `sqfs_dir_reader_read` call with the caller's cursor `it` -/
+theorem readdir_call_history_independent (f : File) (unc : Codec) (hc : CodecOK unc) (w : Nat → Nat × Nat)
+    (hw : ∀ k, (w k).2 ≤ NONE) (h : Nat → List Op) (d : DirRd) (it : Rd) :
+    (exec true f unc (d.readP it) (usedFam f unc w h)).1 = (exec true f unc (d.readP it) (freshFam w)).1 :=
+  (prog_history_independent f unc hc w hw h _ (readdirP_wf 1 it)).1
+
+/-- directory listing: the entries (and their inode references) a listing delivers do not depend on what the dir
+reader was used for before **nor on what it is used for between the `read` calls of the listing** (the cursor
+lives in the caller's `sqfs_dir_reader_state_t`, not in the reader) -/
+theorem dir_listing_history_independent (f : File) (unc : Codec) (hc : CodecOK unc) (w : Nat → Nat × Nat)
+    (hw : ∀ k, (w k).2 ≤ NONE) (h : Nat → List Op) (d : DirRd) (fuel : Nat) (it : Rd) (between : List (Nat → List Op)) :
+    ((listSession d fuel it []).runI true f unc (usedFam f unc w h) between).1 =
+    ((listSession d fuel it []).runI true f unc (freshFam w) []).1 :=
+  session_history_independent f unc hc w hw h _ (listSession_wf d fuel it []) between
+
+/-- the same for the listing done in one go (`get_inode`, `open_dir`, all `read` calls) -/
+theorem dir_list_history_independent (f : File) (unc : Codec) (hc : CodecOK unc) (w : Nat → Nat × Nat)
+    (hw : ∀ k, (w k).2 ≤ NONE) (h : Nat → List Op) (d : DirRd) (ref : Nat) :
+    (exec true f unc (d.listP ref) (usedFam f unc w h)).1 = (exec true f unc (d.listP ref) (freshFam w)).1 :=
+  (prog_history_independent f unc hc w hw h _ (listP_wf d ref)).1
+
+/-- path resolution: `sqfs_dir_reader_resolve_path(rd, path, NULL, &ref)` — alternating `get_inode` on `meta_inode`
+and listings on `meta_dir`, for every path -/
+theorem path_resolution_history_independent (f : File) (unc : Codec) (hc : CodecOK unc) (w : Nat → Nat × Nat)
+    (hw : ∀ k, (w k).2 ≤ NONE) (h : Nat → List Op) (d : DirRd) (path : Bytes) :
+    (exec true f unc (d.resolveP path) (usedFam f unc w h)).1 = (exec true f unc (d.resolveP path) (freshFam w)).1 :=
+  (prog_history_independent f unc hc w hw h _ (resolveP_wf d path)).1
+
+/-- the model-only outcome "loop fuel exhausted" of the listing model cannot happen (every entry consumes at least 9
+bytes of the cursor's `size`) … -/
+theorem listing_fuel_suffices (f : File) (unc : Codec) (hc : CodecOK unc) (S : Readers) (hS : ∀ k, Coherent f unc (S k))
+    (d : DirRd) (ref : Nat) : (exec true f unc (d.listP ref) S).1 ≠ .error loopFuelSt := by
+  unfold DirRd.listP
+  rw [exec_bind]
+  obtain ⟨hco, herr⟩ := exec_coherent_err hc (d.getInodeP ref) S hS
+  cases hr : exec true f unc (d.getInodeP ref) S with
+  | mk r S' =>
+    rw [hr] at hco herr
+    cases r with
+    | error e =>
+      simp only
+      intro h
+      cases h
+      exact herr loopFuelSt (by decide) (readInodeP_nofail _ _ _ _ _ loopFuelSt (by decide) (by decide) (by decide)) rfl
+    | ok ino =>
+      simp only
+      cases hod : d.openDir ino with
+      | error e =>
+        simp only [exec]
+        intro h
+        cases h
+        unfold DirRd.openDir at hod
+        split at hod
+        · cases hod
+        · split at hod
+          · cases hod
+          · cases hod
+      | ok it => exact listGoP_fuel hc d _ it [] S' hco (by omega)
+
+/-- … nor that of the path resolution model (every component consumes at least one byte of the path) -/
+theorem path_fuel_suffices (f : File) (unc : Codec) (hc : CodecOK unc) (S : Readers) (hS : ∀ k, Coherent f unc (S k))
+    (d : DirRd) (path : Bytes) : (exec true f unc (d.resolveP path) S).1 ≠ .error loopFuelSt :=
+  resolveGoP_fuel hc d _ path d.rootRef S hS (by omega)
+
+/-- xattr descriptor: `sqfs_xattr_reader_get_desc` -/
+theorem xattr_desc_history_independent (f : File) (unc : Codec) (hc : CodecOK unc) (w : Nat → Nat × Nat)
+    (hw : ∀ k, (w k).2 ≤ NONE) (h : Nat → List Op) (x : XR) (idx : Nat) :
+    (exec true f unc (x.getDescP idx) (usedFam f unc w h)).1 = (exec true f unc (x.getDescP idx) (freshFam w)).1 :=
+  (prog_history_independent f unc hc w hw h _ (getDescP_wf x idx)).1
+
+/-- xattr set: `sqfs_xattr_reader_read_all` — descriptor, `seek_kv`, then key after key, value after value,
+out-of-line detours included; in particular whatever an earlier request left behind when it failed half way
+(inside a key, inside an out-of-line value, before seeking back) has no effect -/
+theorem xattr_set_history_independent (f : File) (unc : Codec) (hc : CodecOK unc) (w : Nat → Nat × Nat)
+    (hw : ∀ k, (w k).2 ≤ NONE) (h : Nat → List Op) (x : XR) (idx : Nat) :
+    (exec true f unc (x.readAllP idx) (usedFam f unc w h)).1 = (exec true f unc (x.readAllP idx) (freshFam w)).1 :=
+  (prog_history_independent f unc hc w hw h _ (readAllP_wf x idx)).1
+
+/-- the low-level walk: `seek_kv` with any descriptor, then `n` times `read_key` + `read_value` -/
+theorem xattr_walk_history_independent (f : File) (unc : Codec) (hc : CodecOK unc) (w : Nat → Nat × Nat)
+    (hw : ∀ k, (w k).2 ≤ NONE) (h : Nat → List Op) (x : XR) (desc : XDesc) (n : Nat) :
+    (exec true f unc (x.seekKvP desc (x.readPairsP n [])) (usedFam f unc w h)).1 =
+    (exec true f unc (x.seekKvP desc (x.readPairsP n [])) (freshFam w)).1 := by
+  apply (prog_history_independent f unc hc w hw h _ _).1
+  unfold XR.seekKvP
+  split
+  · trivial
+  · exact readPairsP_wf x _ _ _ (by simp)
+
+/-- **xattr reader, out-of-line values** (`read_value_hdr` / `sqfs_xattr_reader_read_value`): remember
+`get_position`, seek to the referenced value, read it, seek back.  If that succeeds, the key/value reader reports
+the position right behind the value's 4-byte header and 8-byte reference, and *every* continuation that goes on
+reading there (the following keys and values) gets exactly what it would get had the value been skipped without
+the detour — also when that position is the end of a block, where `get_position` names the next block instead. -/
+theorem ool_position_restored {β : Type} (f : File) (unc : Codec) (hc : CodecOK unc) (x : XR) (keyType : Nat)
+    (hool : keyType / xattrFlagOol % 2 = 1) (S : Readers) (hS : ∀ k, Coherent f unc (S k)) (v : Bytes)
+    (hok : (exec true f unc (x.readValueApiP keyType) S).1 = .ok v) :
+    let after := (exec true f unc (x.readValueApiP keyType) S).2
+    let skipped := (exec true f unc valueHeaderP S).2
+    getPos (after 1) = getPos (skipped 1) ∧
+    ∀ (q : Prog β), WF (fun k => k == 1) q → (exec true f unc q after).1 = (exec true f unc q skipped).1 := by
+  obtain ⟨hoth, c2, c1, hs, hl, hobs⟩ := readValue_ool_obs hc x keyType hool S (hS 1) v hok
+  intro after skipped
+  refine ⟨(obs_getPos hc hobs).symm, fun q hq => ?_⟩
+  have hR : Rel f unc (fun k => k == 1) skipped after := by
+    intro k
+    by_cases hk : k = 1
+    · subst hk
+      exact ⟨c2, c1, hs, hl, fun _ => hobs⟩
+    · obtain ⟨a, b⟩ := hoth k hk
+      have ea : after k = S k := a
+      have eb : skipped k = S k := b
+      rw [ea, eb]
+      exact ⟨hS k, hS k, rfl, rfl, fun _ => Or.inl (Sim.refl _)⟩
+  exact ((exec_obs hc q _ _ _ hR hq).1).symm
 
 /-! ### the hypotheses are satisfiable, the statements are not vacuous -/
 
@@ -207,13 +435,91 @@ example : answer true exFile toyUnc (run true exFile toyUnc (fresh 0 10) [.seek 
 
 example : (10 : Nat) ≤ NONE := by decide
 
-/-- an instance of `ool_position_restored` whose remembered position is the end of block A (so that
-`get_position` names block B): the detour into block A succeeds -/
-example : (oolDetour true exFile toyUnc (run true exFile toyUnc (fresh 0 10) [.seek 0 0, .read 4]) 0 1 2).1 = 0 ∧
-    getPos (run true exFile toyUnc (fresh 0 10) [.seek 0 0, .read 4]) = (6, 0) := by
+/-! #### Part 3 instances -/
+
+/-- inode table at 0: one raw block with a FIFO inode (reference 0) and the root directory inode (reference 20);
+directory table at 54: one raw block with the listing `a -> FIFO` -/
+private def exImg : File :=
+  { size := 77,
+    byte := fun i => ([0x34, 0x80,
+      0x06, 0x00, 0xA4, 0x01, 0, 0, 0, 0, 0, 0, 0, 0, 0x02, 0, 0, 0, 0x01, 0, 0, 0,
+      0x01, 0x00, 0xED, 0x01, 0, 0, 0, 0, 0, 0, 0, 0, 0x01, 0, 0, 0, 0, 0, 0, 0, 0x02, 0, 0, 0, 0x18, 0, 0, 0, 0, 0, 0, 0,
+      0x15, 0x80,
+      0, 0, 0, 0, 0, 0, 0, 0, 0x02, 0, 0, 0, 0, 0, 0, 0, 0x06, 0, 0, 0, 0x61] : List UInt8).getD i 0,
+    bad := fun _ => false }
+
+private def exDir : DirRd := { inodeStart := 0, dirStart := 54, rootRef := 20, blockSize := 4096 }
+private def exWin : Nat → Nat × Nat := fun k => if k = 0 then (0, 54) else (54, 77)
+/-- histories with failures: `meta_inode` was sent to a bad offset, `meta_dir` into the middle of the listing -/
+private def exHist : Nat → List Op := fun k => if k = 0 then [.seek 0 0, .seek 0 100, .read 3] else [.seek 54 3, .read 50]
+
+example : ∀ k, (exWin k).2 ≤ NONE := by
+  intro k; unfold exWin; split <;> decide
+
+/-- `resolve_path("/a")` on the used readers finds the FIFO inode (reference 0) -/
+example : (match (exec true exImg toyUnc (exDir.resolveP [0x2f, 0x61]) (usedFam exImg toyUnc exWin exHist)).1 with
+    | .ok r => decide (r = 0) | .error _ => false) = true := by decide +kernel
+
+/-- and `get_inode(0)` decodes it: type 6, mode 0644 | S_IFIFO, inode number 2, nlink 1 -/
+example : (match (exec true exImg toyUnc (exDir.getInodeP 0) (usedFam exImg toyUnc exWin exHist)).1 with
+    | .ok i => decide (i = { typ := 6, mode := 0o010644, uid := 0, gid := 0, mtime := 0, inum := 2, fields := [1], extra := [] })
+    | .error _ => false) = true := by decide +kernel
+
+/-- key/value block at 0: the value record "vv", key `user.k` whose value is out of line (reference 0 = that
+record), key `user.j` with the inline value "w" -/
+private def exKv : File :=
+  { size := 35,
+    byte := fun i => ([0x21, 0x80,
+      0x02, 0, 0, 0, 0x76, 0x76,
+      0x00, 0x01, 0x01, 0x00, 0x6b,  0x08, 0, 0, 0,  0, 0, 0, 0, 0, 0, 0, 0,
+      0x00, 0x00, 0x01, 0x00, 0x6a,  0x01, 0, 0, 0, 0x77] : List UInt8).getD i 0,
+    bad := fun _ => false }
+
+private def exXr : XR := { loaded := true, xattrStart := 0, xattrEnd := 35, numIds := 0, idBlockStarts := [] }
+/-- both readers over the whole image; the key/value reader stands right behind the key `user.k` -/
+private def exS : Readers := fun k => if k = 1 then (seek true exKv toyUnc (fresh 0 35) 0 11).2 else fresh 0 35
+
+/-- the hypothesis of `ool_position_restored` is satisfiable: the out-of-line value is delivered … -/
+example : (match (exec true exKv toyUnc (exXr.readValueApiP 0x100) exS).1 with
+    | .ok v => decide (v = [0x76, 0x76]) | .error _ => false) = true := by decide +kernel
+
+/-- … and the next pair is read from the right place afterwards -/
+example : (match (exec true exKv toyUnc (exXr.readPairsP 1 []) (exec true exKv toyUnc (exXr.readValueApiP 0x100) exS).2).1 with
+    | .ok l => decide (l = [("user.j".toUTF8.toList, [0x77])]) | .error _ => false) = true := by decide +kernel
+
+example : (0x100 : Nat) / xattrFlagOol % 2 = 1 := by decide
+
+/-- a written file of 19 bytes with block size 8: a raw block at 0, a compressed block at 8 (`03 08 00 55`: eight
+times `55`), and a 3-byte tail at offset 1 of the raw 5-byte fragment block at 12 -/
+private def exData : File :=
+  { size := 17, byte := fun i => ([1, 2, 3, 4, 5, 6, 7, 8, 3, 8, 0, 0x55, 0xa0, 0xa1, 0xa2, 0xa3, 0xa4] : List UInt8).getD i 0,
+    bad := fun _ => false }
+private def exIno : DataReader.Inode := { fileSize := 19, blocksStart := 0, fragIdx := 0, fragOff := 1, blocks := [16777224, 4] }
+private def exTbl : List (Nat × Nat) := [(12, 16777221)]
+
+/-- `Written` is satisfiable (so `read_eq_blocks_plus_fragment` and `stream_eq_read` are not vacuous) -/
+example : DataReader.Written exData toyUnc 8 exTbl exIno [[1, 2, 3, 4, 5, 6, 7, 8], List.replicate 8 0x55] [0xa1, 0xa2, 0xa3] where
+  bsPos := by decide
+  bsU32 := by decide
+  small := by decide
+  blocks := by
+    refine ⟨_, _, rfl, by decide, Or.inr ⟨by decide, by decide, [1, 2, 3, 4, 5, 6, 7, 8], by decide +kernel, Or.inr ⟨by decide, by decide, rfl⟩⟩, ?_⟩
+    refine ⟨_, _, rfl, by decide, Or.inr ⟨by decide, by decide, [3, 8, 0, 0x55], by decide +kernel, Or.inl ⟨by decide, by decide, by decide, ?_⟩⟩, rfl⟩
+    intro room hr
+    have h8 : (8 : Nat) ≤ room := hr
+    simp [toyUnc, h8]
+  covered := by decide
+  tailLen := by decide
+  tailShort := by decide
+  frag := fun _ => ⟨(12, 16777221), ([0xa0, 0xa1, 0xa2, 0xa3, 0xa4, 0, 0, 0], 5), by decide, by decide +kernel, by decide, by decide, by decide⟩
+
+/-- and the three APIs do deliver the 19 bytes -/
+example : DataReader.viaStream exData toyUnc 8 exTbl exIno = .ok [1, 2, 3, 4, 5, 6, 7, 8, 0x55, 0x55, 0x55, 0x55, 0x55, 0x55, 0x55, 0x55, 0xa1, 0xa2, 0xa3] ∧
+    DataReader.viaBlocks exData toyUnc 8 exTbl exIno = DataReader.viaStream exData toyUnc 8 exTbl exIno ∧
+    DataReader.readSpec exData toyUnc 8 exTbl exIno 0 19 = (0, [1, 2, 3, 4, 5, 6, 7, 8, 0x55, 0x55, 0x55, 0x55, 0x55, 0x55, 0x55, 0x55, 0xa1, 0xa2, 0xa3]) := by
   decide +kernel
 
-/-- `ConsIno` for the current code is satisfiable by a non-trivial inode (one raw 8-byte block at location 0) -/
+/-- `ConsIno` for the code before 36fa767 is satisfiable by a non-trivial inode (one raw 8-byte block at location 0) -/
 example : DataReader.ConsIno false (fun _ => 16777224)
     { fileSize := 8, blocksStart := 0, fragIdx := 4294967295, fragOff := 0, blocks := [16777224] } := by
   unfold DataReader.ConsIno DataReader.Cons
